@@ -205,7 +205,9 @@ fn witness_is_move_legal_and_any() {
 fn witness_find_uci_selects_the_move_the_text_denotes() {
     let mut bad = 0;
     let fens = ["rnbqkbnr/pppppppp/8/8/8/8/PPPPPPPP/RNBQKBNR w KQkq - 0 1", "3q4/2P5/8/8/4Q2Q/k7/8/K6Q w - - 0 1", "8/8/8/8/8/k7/4p3/K7 b - - 0 1",
-                "r3k2r/8/8/8/8/8/8/R3K2R w KQkq - 0 1"];
+                "r3k2r/8/8/8/8/8/8/R3K2R w KQkq - 0 1", "r3k2r/8/8/8/8/8/8/R3K2R b KQkq - 0 1",
+                // pieces on the other side's king square moving to a corner while castling rights exist
+                "4R2r/1k6/8/8/8/8/8/4K2R w K - 0 1", "r3R3/1k6/8/8/8/8/8/R3K3 w Q - 0 1", "r3k3/8/8/8/8/8/6K1/R3q3 b q - 0 1", "4k2r/8/8/8/8/8/6K1/4q2R b k - 0 1"];
     for fen in fens {
         let mut board = Bitboard::from_fen_string_unchecked(fen);
         let before = snap(&board);
@@ -217,6 +219,7 @@ fn witness_find_uci_selects_the_move_the_text_denotes() {
             if t.len() == 4 { for p in ["q", "r", "b", "n", "k", "p"] { candidates.push(format!("{}{}", t, p)); } }
             if t.len() == 5 { candidates.push(t[..4].to_string()); candidates.push(format!("{}k", &t[..4])); candidates.push(format!("{}x", t)); }
         }
+        for extra in ["e1h1", "e1a1", "e8h8", "e8a8", "e1g1", "e1c1", "e8g8", "e8c8"] { candidates.push(extra.to_string()); }
         for c in candidates {
             let res = board.find_uci(&c);
             let denotes_a_generated_move = texts.iter().any(|t| t == c.trim());
